@@ -468,8 +468,8 @@ func (s *sut) obs(full bool, hs []int, dumps []int) tr.E {
 
 type stats struct {
 	Events, Writes, Scans, Sweeps, Changes, MaxHeight, MaxKeys, Clones, Panics, RaceRounds, RaceKept, Compound, Cold, Stuck, Retained, CloneShapes, Drains, Duels, ReplaceSweeps int
-	Heights                                                                                                                                                       map[int]int
-	Degrees                                                                                                                                                       map[int]int
+	Heights                                                                                                                                                                      map[int]int
+	Degrees                                                                                                                                                                      map[int]int
 }
 
 var st = stats{Heights: map[int]int{}, Degrees: map[int]int{}}
@@ -1642,9 +1642,9 @@ func runRaces(w *tr.W, rng *rand.Rand, rounds, keep int, budget time.Duration) (
 	kept, ran := 0, 0
 	const hot = 5
 	for r := 0; r < rounds && kept < keep; r++ {
-		// the budget only bounds the run on a loaded machine; a fifth of the rounds asked for is
+		// the budget only bounds the run on a loaded machine; half of the rounds asked for is
 		// collected even then (up to three times the budget)
-		if el := time.Since(t0); (el > budget && kept >= keep/5) || el > 3*budget {
+		if el := time.Since(t0); (el > budget && kept >= keep/2) || el > 3*budget {
 			break
 		}
 		ran++
